@@ -131,6 +131,10 @@ def stepLoaded (d : DSt) (st : St) (ts : List String) : DSt × String :=
   | ["rmerge", e, f] => match entOf e, entOf f with
       | some e, some f => apply d st (.rmerge e f)
       | _, _ => bad d
+  -- the kind factory is a function of the name: whatever the goroutines do, one handle per name
+  | ["intern", g, r] => match g.toNat?, r.toNat? with
+      | some _, some _ => readOut d st "interned"
+      | _, _ => bad d
   | ["hold", e] => match entOf e with
       | some e =>
         let hs' := d.hs.hold e
